@@ -172,18 +172,24 @@ func runC10(s *Sim) {
 	}
 	s.Family = "close-final/" + outage
 
-	if s.Net.Window > 0 && outage == "none" && t.Bool("traffic-parked-at-close", 2, 3) {
-		// data is buffered in the streams and the link is full when the closes start: the streams'
-		// final flushes are parked in the link while Close sends its own messages
-		n++
-		if s.Idle(4) {
+	bufferedAtClose := outage == "none" && t.Bool("buffered-data-at-close", 1, 2)
+	if bufferedAtClose {
+		// data is buffered in every upstream when the closes start (their final flushes run while
+		// Close sends its own messages); under back-pressure the link is full as well
+		for _, h := range y.Ups {
+			if s.Idle(1) {
+				n++
+				s.Start(1, y.writeOp(h, 1, dataID(n%3), []int{16, 200}))
+				s.Wait()
+				s.Harvest()
+			}
+		}
+		if s.Net.Window > 0 && s.Idle(4) {
+			n++
 			s.Start(4, y.sendMetaOp(fmt.Sprintf("pre-close-bt-%d", n)))
+			s.Wait()
 		}
-		if len(y.Ups) > 0 && s.Idle(1) {
-			s.Start(1, y.writeOp(y.Ups[t.Choose("h-up", len(y.Ups))], 1, dataID(n%3), []int{16, 200}))
-		}
-		s.Wait()
-		s.Stat("env.traffic-parked-at-close")
+		s.Stat("env.buffered-data-at-close")
 	}
 	// ---- the closes ----
 	type target struct {
@@ -203,6 +209,13 @@ func runC10(s *Sim) {
 	for i := len(targets) - 1; i > 0; i-- {
 		j := t.Choose("close-order", i+1)
 		targets[i], targets[j] = targets[j], targets[i]
+	}
+	if bufferedAtClose && t.Bool("conn-close-first", 1, 2) {
+		for i, tg := range targets {
+			if tg.kind == "conn" {
+				targets[0], targets[i] = targets[i], targets[0]
+			}
+		}
 	}
 	connClosedAt := -1
 	dialsAtConnClose := 0
